@@ -666,6 +666,40 @@ theorem c04_barrier_log {s : QState} (hr : Reachable s) (hcap : 0 < s.cap) {pre 
   have := barrierLog_reachable hr
   exact (this hcap pre post i hsplit).2
 
+def completedCount (log : List Obs) : Nat := (log.filter fun | .completed _ _ => true | _ => false).length
+
+/-! ### The flush-request channel is unbounded in the specification -/
+
+/-- a variant of `step` in which the flush-request channel holds at most `k` requests and a request that
+does not fit is dropped — which drops its oneshot sender, i.e. completes its future (the seeded change
+`sync_channel(1024)` + `try_send(..).ok()`) -/
+def stepBounded (k : Nat) (s : QState) : Ev → Option QState
+  | .flushSend =>
+    if s.wpc ≠ .exited ∧ k ≤ s.sigs.length then
+      some { s with marks := s.marks ++ [s.pushOrder.length], sent := s.marks.length :: s.sent,
+                    log := s.log ++ [.completed s.marks.length true] }
+    else step s .flushSend
+  | ev => step s ev
+
+def runBounded (k : Nat) (s : QState) : List Ev → Option QState
+  | [] => some s
+  | ev :: evs => match stepBounded k s ev with
+    | none => none
+    | some s' => runBounded k s' evs
+
+/-- **The barrier does not depend on how many flush requests are outstanding** — `c04_barrier` /
+`c04_barrier_log` quantify over all event sequences, so over any number of `flushSend`s while the writer is
+stalled. A bounded channel that drops the requests it cannot hold is *not* a refinement: with room for one
+request, one entry pushed and the writer not moving at all, the second request completes at once although
+the entry pushed before it has not been handed to the stream (decided witness). -/
+theorem c04_bounded_channel_violates :
+    (runBounded 1 (init 4 (fun _ => .ok) true) [.push 0, .flushSend, .flushSend]).map
+      (fun s => (s.log.contains (.completed 1 true), delivered s.log, s.pushOrder.take (markOf s 1))) =
+      some (true, [], [(0, 0)]) ∧
+    -- the unbounded channel of the model: nothing completes
+    (run (init 4 (fun _ => .ok) true) [.push 0, .flushSend, .flushSend]).map
+      (fun s => (completedCount s.log, s.sigs)) = some (0, [0, 1]) := by decide
+
 /-! ## Boundedness (L1 / S2): the potential function -/
 
 /-- potential of request `i`: an upper bound on the number of progressing `handle_waiting_wakers`
@@ -1025,6 +1059,7 @@ end Queue
 #print axioms Queue.c04_barrier
 #print axioms Queue.c04_spec_accepts
 #print axioms Queue.c04_barrier_log
+#print axioms Queue.c04_bounded_channel_violates
 #print axioms Queue.c04_bounded
 #print axioms Queue.c04_bounded_loop
 #print axioms Queue.c04_after_exit_immediate
